@@ -187,14 +187,35 @@ fn check_cut(c: &CutCase, obs: &mut Obs) -> CheckResult {
             // the whole configuration is shifted by a base beyond 2^53 in three quarters of the cases:
             // neighbouring values / edges are then indistinguishable after a conversion to f64, but their
             // order - and so the enclosing bin - is that of the small offsets
-            let base: i64 = [0, 1 << 53, 1 << 60, -(1 << 61)][(c.nlabels + c.vals.len() + c.edges.len()) % 4];
-            obs.class_if(base != 0, "i64_beyond_2^53");
+            let sel = (c.nlabels + c.vals.len() + c.edges.len()) % 6;
+            // selections 4 / 5 shift the configuration so that the lowest edge IS i64::MIN (highest edge IS
+            // i64::MAX): the outer, placeholder-bounded window then has zero width
+            let small: Vec<i64> = c.vals.iter().filter(|s| !matches!(s, Sym::TypeMin | Sym::TypeMax | Sym::PosInf | Sym::NegInf | Sym::Null)).map(|s| resolve_int(*s, &c.edges, i64::MIN, i64::MAX)).collect();
+            let base: i64 = match (sel, c.edges.first(), c.edges.last()) {
+                (4, Some(lo), _) if *lo <= 0 && small.iter().all(|v| *v >= *lo as i64) => i64::MIN - *lo as i64,
+                (5, _, Some(hi)) if *hi >= 0 && small.iter().all(|v| *v <= *hi as i64) => i64::MAX - *hi as i64,
+                (4, _, _) | (5, _, _) => 0,
+                _ => [0, 1 << 53, 1 << 60, -(1 << 61)][sel % 4],
+            };
+            obs.class_if(base != 0 && sel < 4, "i64_beyond_2^53");
+            obs.class_if(base != 0 && sel >= 4, "outer_edge_is_type_extreme");
             let shift = |v: i64| if v == i64::MIN || v == i64::MAX { v } else { v + base };
             let data: Vec<i64> = c.vals.iter().map(|s| shift(resolve_int(*s, &c.edges, i64::MIN, i64::MAX))).collect();
             let bins: Vec<i64> = c.edges.iter().map(|e| *e as i64 + base).collect();
             let labels: Vec<Option<i32>> = (0..c.nlabels).map(|i| Some(i as i32)).collect();
             let got = run_cut(&data, &bins, &labels, c.right, c.add_bounds, |l| l.map(|x| x as usize));
-            (data.iter().map(|v| Some(if *v == i64::MIN || *v == i64::MAX { *v } else { *v - base }.clamp(-1_000_000, 1_000_000) as f64)).collect(), got)
+            // logical offsets: when the configuration was shifted onto a type extreme, the extreme value
+            // itself is an ordinary offset (it equals that edge)
+            let logical = |v: i64| -> f64 {
+                if sel >= 4 && base != 0 {
+                    (v as i128 - base as i128).clamp(-1_000_000, 1_000_000) as f64
+                } else if v == i64::MIN || v == i64::MAX {
+                    v.clamp(-1_000_000, 1_000_000) as f64
+                } else {
+                    (v - base).clamp(-1_000_000, 1_000_000) as f64
+                }
+            };
+            (data.iter().map(|v| Some(logical(*v))).collect(), got)
         },
     };
     let edges_f: Vec<f64> = match c.vt {
